@@ -110,3 +110,10 @@ func describeLists(ls []refesl.List) string {
 	}
 	return s
 }
+
+func trunc(s string, n int) string {
+	if len(s) > n {
+		return s[:n] + "..."
+	}
+	return s
+}
